@@ -351,7 +351,7 @@ func (d *cdriver) judgeAnswers(what string, out, san string, err error, tab reft
 // RunC15: the Go and C implementations agree on tables and stacks.
 func RunC15(c *Ctx) {
 	r := c.Rep
-	r.Rule = "case = one query (full scan, SeekRef, SeekLog, RefsFor) answered by BOTH implementations on the same file or directory: (a) table written by Go, read by the C library built from /repo/c with ASan+UBSan; (b) table written by C from generated records, read by Go (and judged by the independent decoder and the source records); (c) stack directory written by Go (Adds + compactions) read by C; (d) stack written by C (stack_add with its auto-compaction, compact_all), read and extended by Go, read again by C. Any sanitizer report of the C side on such input is a violation. distinct = (direction, file/stack, query); non-trivial = every compared query"
+	r.Rule = "case = one query (full scan, SeekRef, SeekLog, RefsFor) answered by BOTH implementations on the same file or directory: (a) table written by Go, read by the C library built from /repo/c with ASan+UBSan; (b) table written by C from generated records, read by Go (and judged by the independent decoder and the source records); (c) stack directory written by Go (Adds + compactions) read by C; (d) stack written by C (stack_add with its auto-compaction, compact_all), read and extended by Go, read again by C. (e) a Go-written stack extended by C (multi-table additions, compact_all, compact_all with expiry, clean), read by Go and again by C. (f) a long-lived C handle reloads after Go rewrote the stack, answers queries, adds a transaction. Any sanitizer report of the C side on such input is a violation. distinct = (direction, file/stack, query); non-trivial = every compared query"
 	r.Assumptions = []string{"NUL-free names and strings (C strings)", "ASAN detect_leaks=0: leaks are not part of the property"}
 	bin := os.Getenv("VERIF_CDRIVER")
 	if bin == "" {
